@@ -3,6 +3,7 @@ and direct oracle (rejected => nothing changed; allowed => destination; active =
 
 Finding classes (stable strings): "c18-nested-hier" (handler-requested transition in a hierarchical machine leaves stale flags),
 "c18-race" (two concurrent _perform_transition calls: result is not that of any sequential order).  Anything else is a violation.
+The driver domains used are `sm` (engine) and `gemctrl bare` (public methods of the shipped control machine).
 """
 from __future__ import annotations
 
@@ -457,6 +458,56 @@ def shipped_instances():
     }
 
 
+def snapshot(sm, states):
+    """everything a rejected request must leave alone: current state, every flag, and every plain attribute of the machine object"""
+    plain = {k: v for k, v in vars(sm).items() if isinstance(v, (str, int, float, bool, type(None)))}
+    return (states.index(sm.current_state), tuple(bool(x.active) for x in states), tuple(sorted(plain.items(), key=lambda kv: kv[0])))
+
+
+CTRL_ATTRS = ["init", "control", "offline", "equipment_offline", "attempt_online", "host_offline", "online", "online_local", "online_remote"]
+
+
+def ctrl_public_methods(res, rng, big, cases, lines, answers):
+    """the shipped control machine through its PUBLIC methods (they do more than `_perform_transition`: `switch_online_local/remote`
+    record the operator's choice): correspondence with `gemctrl bare`, and the oracle "a rejected request changes nothing" over the
+    whole machine object - judged directly and by what later allowed requests do (the model tracks the remembered sub-state)."""
+    import secsgem.gem.control_state_machine as ctrl_mod
+    cls = ctrl_mod.ControlStateMachine
+    methods = [k for k, v in vars(cls).items() if callable(v) and not k.startswith("_")]
+    seqs = []
+    # the shape of the recorded seed: on-line, leave ON-LINE, a rejected local/remote switch, re-enter ON-LINE
+    for sw in ("switch_online_local", "switch_online_remote"):
+        for leave, back in (("remote_offline", ["remote_online"]), ("switch_offline", ["switch_online", "attempt_online_success"])):
+            seqs.append(["start", leave, sw] + back + [sw, leave, sw] + back)
+    for _ in range(1500 if big else 300):
+        seqs.append(["start"] + [rng.choice(methods) for _ in range(rng.range(2, 14))])
+    for seq in seqs:
+        initial = rng.choice(["EQUIPMENT_OFFLINE", "ATTEMPT_ONLINE", "HOST_OFFLINE", "ONLINE"])
+        sub = rng.choice(["LOCAL", "REMOTE"])
+        sm = cls(initial, sub)
+        states = [getattr(sm, a) for a in CTRL_ATTRS]
+        steps = []
+        for i, m in enumerate(seq):
+            before = snapshot(sm, states)
+            try:
+                getattr(sm, m)()
+                out = "ok"
+            except (WrongSourceStateError, UnknownTransitionError) as exc:
+                out = errname(exc)
+                after = snapshot(sm, states)
+                if after != before:
+                    diff = [(a, b) for a, b in zip(before[2], after[2]) if a != b] or [before[:2], after[:2]]
+                    res.violate("c18-engine", f"ControlStateMachine.{m}() was rejected ({out}) but changed the machine",
+                                {"machine": "ControlStateMachine", "initial": initial, "sub": sub, "methods": seq[:i + 1]}, "nothing changed", diff)
+            bits = "".join("1" if x.active else "0" for x in states)
+            steps.append(f"{sm.current_state.name}:{bits}:{'REMOTE' if sm._online_control_state == 'REMOTE' else 'LOCAL'}:{out}")
+            res.bump("ctrl_method", f"{m}:{out}")
+        cases.append({"machine": "ControlStateMachine", "initial": initial, "sub": sub, "methods": seq})
+        lines.append(f"gemctrl bare {initial} {sub} " + ",".join(seq))
+        answers.append("ok " + "|".join(steps))
+        res.count(lines[-1], nontrivial=any(x.endswith(":ok") for x in steps[1:]))
+
+
 def introspect(sm):
     states = [v for k, v in vars(sm).items() if isinstance(v, State) and k != "_current_state"]
     st = ",".join(f"{s.name}:{s.state.value}:{s.parent.name if s.parent else '-'}:{1 if s.active else 0}" for s in states)
@@ -472,12 +523,17 @@ def shipped_run(sm, states, reqs):
     for tr in sm._transitions:
         tr.events.called.register(lambda _d, nm=tr.name: log.append("c." + nm))
     results = []
+    changed = None
     for r in reqs:
+        before = snapshot(sm, states), len(log)
         try:
             sm._perform_transition(r)
             results.append("ok")
         except (WrongSourceStateError, UnknownTransitionError) as exc:
             results.append(errname(exc))
+            if (snapshot(sm, states), len(log)) != before and changed is None:
+                changed = r
+    shipped_run.changed = changed
     cur = states.index(sm.current_state)
     return f"ok cur={cur} active={''.join('1' if s.active else '0' for s in states)} log={','.join(log)} res={','.join(results)}"
 
@@ -637,12 +693,15 @@ def main():
             seqs += [list(s) for s in itertools.product(names, repeat=3)]
             res.exhaustive_parts.append(f"{name}: all request sequences of length 3")
         if name == "CtrlSM":
-            continue  # the control machine with its forwarders is driven through `gemctrl` (C11) and the random-machine generator covers flat nesting
+            ctrl_public_methods(res, rng, big, cases, lines, answers)
+            continue
         for seq in seqs:
             sm = ctor()
             _, states = introspect(sm)
             init = sm.current_state.name
             ans = shipped_run(sm, states, seq)
+            if shipped_run.changed is not None:
+                res.violate("c18-engine", f"{name}: the rejected request {shipped_run.changed!r} changed the machine", {"machine": name, "requests": seq})
             cases.append({"machine": name, "requests": seq})
             lines.append(f"sm shipped {name} I={init} R=" + ",".join(seq))
             answers.append(ans)
